@@ -56,3 +56,26 @@ Qed.
 (* a unit quaternion that is not the identity *)
 Example unit_quat_example : qnorm2 (Q4 0 0 1 0) = 1.
 Proof. unfold qnorm2. cbn [qx qy qz qw]. ring. Qed.
+
+(* Wave 12: points are REAL vectors.  An integer-valued point under a non-integer pose has a non-integer image, so a
+   point function that returns its result in the (integer) representation of its argument cannot satisfy
+   P(x) = R x + t, nor can its inverse undo it *)
+Example integer_point_non_integer_pose :
+  let P := Pose Rz90 (V3 (1 / 2) 0 0) in
+  rotate_translate P (V3 1 0 0) = V3 (1 / 2) 1 0 /\
+  (forall z : Z, IZR z <> vx (rotate_translate P (V3 1 0 0))) /\
+  inv_rotate_translate P (rotate_translate P (V3 1 0 0)) = V3 1 0 0 /\
+  inv_rotate_translate P (V3 0 1 0) <> V3 1 0 0.        (* the truncated image (0,1,0) is not mapped back *)
+Proof.
+  cbv zeta. assert (E : rotate_translate (Pose Rz90 (V3 (1 / 2) 0 0)) (V3 1 0 0) = V3 (1 / 2) 1 0).
+  { unfold rotate_translate, Rz90, mvec, vadd. cbn [pR pt vx vy vz m00 m01 m02 m10 m11 m12 m20 m21 m22]. f_equal; field. }
+  repeat split.
+  - exact E.
+  - rewrite E. cbn [vx]. intros z H.
+    assert (H2 : IZR (2 * z) = IZR 1) by (rewrite mult_IZR; unfold Rdiv in H; lra). apply eq_IZR in H2.
+    destruct z as [|p|p]; [discriminate | destruct p; discriminate | discriminate].
+  - rewrite E. unfold inv_rotate_translate, Rz90, mvec, mtrans, vsub. cbn [pR pt vx vy vz m00 m01 m02 m10 m11 m12 m20 m21 m22].
+    f_equal; field.
+  - unfold inv_rotate_translate, Rz90, mvec, mtrans, vsub. cbn [pR pt vx vy vz m00 m01 m02 m10 m11 m12 m20 m21 m22].
+    intros K. injection K as _ K _. lra.
+Qed.
